@@ -237,13 +237,8 @@ def _run(chk, tier, bins, gdir):
     # cases judged by TransferCheck below
     worst = {"dev_p": 0.0, "dev_tp": 0.0, "dev_v": 0.0, "dev_fn": 0.0, "vdev": 0.0, "rdev": 0.0, "xc_dev": 0.0, "xf_dev": 0.0, "dev_xs": 0.0, "ctl_dev": 0.0}
     hist_info = None
-    if hists:
-        runs = c18hist.execute(hists, bins, gdir, table, meshes)
-        reps, hist_info = c18hist.judge(chk, runs, tier)
-        for s, c, r in reps:
-            good.append(c)
-            for k in (("dev_p", "dev_v") if c["ps"] > 0 else ("vdev", "rdev")) + (("dev_tp", "dev_fn") if c["nested"] else ()) + ("ctl_dev",):
-                worst[k] = max(worst[k], r.get(k, 0.0))
+    hist_pool = cf.ThreadPoolExecutor(max_workers=1)
+    fut_runs = hist_pool.submit(c18hist.execute, hists, bins, gdir, table, meshes, 8) if hists else None     # runs beside the cases below
     for fam in ("simplex", "hypercube"):
         cs = [c for c in cases if c["fam"] == fam]
         # the runner cuts the list into contiguous shards: interleave, so that the expensive cases (3D factories, files) are spread over all of them
@@ -263,6 +258,14 @@ def _run(chk, tier, bins, gdir):
             slim = {k: c[k] for k in c if k != "out"}
             chk.violation(sig(c, "harness:" + str(r.get("outcome", "bad"))), "%s (%s %s %s perm=%s): %s" % (c["id"], c["srcname"], c["fam"], c["el"], c["perm"], desc),
                           {"kind": "case", "harness": "c18_transfer", "case": slim, "result": r})
+    if fut_runs is not None:
+        runs = fut_runs.result()
+        hist_pool.shutdown()
+        reps, hist_info = c18hist.judge(chk, runs, tier)
+        for s, c, r in reps:
+            good.append(c)
+            for k in (("dev_p", "dev_v") if c["ps"] > 0 else ("vdev", "rdev")) + (("dev_tp", "dev_fn") if c["nested"] else ()) + ("ctl_dev",):
+                worst[k] = max(worst[k], r.get(k, 0.0))
     with cf.ProcessPoolExecutor(max_workers=6) as ex:
         full = list(ex.map(vfemlib.finish_transfer_case, [c["out"] for c in good], chunksize=8))
     byid = {c["id"]: c for c in good}
@@ -286,7 +289,7 @@ def _run(chk, tier, bins, gdir):
     chk.traces = len(full)
     chk.exhaustive = True
     chk.extra["generated_meshes"] = len(meshes)
-    chk.extra["histories"] = hist_info
+    chk.extra["process_histories"] = hist_info
     chk.extra["cases_by_family"] = {}
     for c in good:
         k = "%s/%s%d" % (c["el"], c["fam"], c["dim"])
